@@ -154,6 +154,8 @@ let whole_script : (string, char list -> char list -> Dfa.cdfa -> (char list * c
                     (Extracted.BinNums.coq_N * (char list * char list) list) list -> Extracted.BinNums.coq_N list list ->
                     (unit, char list * bool) Extracted.Prelude.outcome) Hashtbl.t = Hashtbl.create 4
 let () = Hashtbl.replace whole_script "zsh" Extracted.EmitZsh.script_of_dfa
+let () = Hashtbl.replace whole_script "pwsh" Extracted.EmitPwsh.script_of_dfa
+let () = Hashtbl.replace whole_script "fish" Extracted.EmitFish.script_of_dfa
 let () =
   register "emitscript" (fun v ->
       match v with
